@@ -40,7 +40,7 @@ class DynModel(Model):
         register_opaque("Guest", self.guest_def)
         self.items["self.bat"] = self.bat_getitem
         self.wf = wf
-        self.hyps.append(z3.ForAll([K], z3.And(self.BAT(K) >= 0, self.BAT(K) <= U32)))
+        self.hyps.append(z3.ForAll([T], z3.And(self.BAT(T) >= 0, self.BAT(T) <= U32)))
         self.hyps.append(byte_range_axiom(self.farr))
         if not wf:
             # holds for every file: fields are machine integers, and __init__ computes both from a uint32
@@ -48,8 +48,8 @@ class DynModel(Model):
         if wf:
             # class invariant established by DynamicDisk.__init__ (proved there) + well-formedness of the image (A6)
             self.hyps += [self.spb > 0, self.bm == self.BM, self.BM >= 0, self.max_entries >= 0,
-                          z3.ForAll([K], z3.Implies(z3.And(0 <= K, K < self.max_entries, self.BAT(K) != U32),
-                                                    z3.And(self.BAT(K) != 0, (self.BAT(K) + self.BM + self.spb) * 512 <= self.fsize)))]
+                          z3.ForAll([T], z3.Implies(z3.And(0 <= T, T < self.max_entries, self.BAT(T) != U32),
+                                                    z3.And(self.BAT(T) != 0, (self.BAT(T) + self.BM + self.spb) * 512 <= self.fsize)))]
 
     def guest_def(self, x):  # SPEC
         s, b, f1 = ediv(x, z3.IntVal(512))
